@@ -324,8 +324,13 @@ def check_rotation(case, ctx):
         _circ(B["dpm"], (A["dpm"] + a) % 360.0, 2e-3 if case["dtype"] == "float64" else 2e-2, "dpm", "mean direction at the peak must shift by a=%g" % a)
     for n in ("dm", "dp") + (("dpm",) if "dpm" in B else ()):
         v = B[n][~np.isnan(B[n])]
-        if np.any((v < 0) | (v >= 360.0)):
-            raise Violation(n + "-range", "direction outside [0,360): %r" % v[:4])
+        bad = (v < 0) | (v >= 360.0)
+        if n == "dp":
+            # dp is one of the direction labels, returned in single precision: a label of 359.99999999999994 comes back as
+            # 360.0f, which is that label to the precision of the output, not a direction outside the circle
+            bad &= ~np.isin(v, np.asarray(newd, dtype=np.float32).astype(np.float64))
+        if np.any(bad):
+            raise Violation(n + "-range", "direction outside [0,360): %r" % v[bad][:4])
     ctx.nt(abs(a % 360.0) > 1e-9)
     ctx.label("dtype=" + case["dtype"], "a=%s" % ("neg" if a < 0 else ">360" if a > 360 else "0..360"), "dorder=" + case["dg"]["order"])
     ctx.show(gen.describe(case["fg"], case["dg"], case["specs"], case["dims"], a=a, dtype=case["dtype"]))
